@@ -143,7 +143,11 @@ fn float_ctor_checks(ctx: &Ctx) -> u64 {
     let maxd: usize = 40;
     let mut counts = [0u64; 2];
     for len in 0..=maxd {
-        let data: Vec<[f32; 3]> = (0..len).map(|_| [rng.unit() as f32, rng.unit() as f32 * 360.0, f32::from_bits(rng.next() as u32)]).collect();
+        // arbitrary bit patterns, and the values a constructor might be tempted to normalise (360, -0.0, NaN payloads, +-inf, >1, <0)
+        let special = [360.0f32, -0.0, f32::from_bits(0x7FC0_1234), f32::INFINITY, f32::NEG_INFINITY, 1.5, -1.0, 720.0, -1e-45, 359.99997];
+        let data: Vec<[f32; 3]> = (0..len)
+            .map(|i| if (i + len) % 3 == 1 { [rng.pick(&special), rng.pick(&special), rng.pick(&special)] } else { [rng.unit() as f32, rng.unit() as f32 * 360.0, f32::from_bits(rng.next() as u32)] })
+            .collect();
         for w in 0..=maxd {
             for h in 0..=maxd {
                 let want_ok = len == w * h;
@@ -214,6 +218,47 @@ fn float_ctor_checks(ctx: &Ctx) -> u64 {
         big1!("LinearRgb", LinearRgb::new(data.clone(), w, h));
         big1!("Xyb", Xyb::new(data.clone(), w, h));
         big1!("Hsl", Hsl::new(data.clone(), w, h));
+    }
+    // a copy exposes what the original exposes, whether made by clone() or by clone_from() into an image that held
+    // something else (other size, other labels)
+    {
+        let a = vec![[0.1f32, 360.0, -0.0], [0.5, 0.25, f32::from_bits(0x7FC0_0001)], [1.0, 0.0, 0.75]];
+        let same = |x: &[[f32; 3]], y: &[[f32; 3]]| x.len() == y.len() && x.iter().zip(y).all(|(p, q)| (0..3).all(|c| p[c].to_bits() == q[c].to_bits()));
+        for t in [TC::BT470BG, TC::PerceptualQuantizer, TC::Linear] {
+            for p in [CP::BT2020, CP::P3DCI, CP::BT709, CP::ST428] {
+                n += 2;
+                let src = Rgb::new(a.clone(), 3, 1, t, p).unwrap();
+                let mut dst = Rgb::new(vec![[0.0; 3]; 8], 2, 4, TC::SRGB, CP::BT709).unwrap();
+                dst.clone_from(&src);
+                let cl = src.clone();
+                for (what, img) in [("clone_from", &dst), ("clone", &cl)] {
+                    if !same(img.data(), &a) || img.width() != 3 || img.height() != 1 || img.transfer() != t || img.primaries() != p {
+                        ev::violation(
+                            format!("C12|Rgb-not-verbatim|{what}"),
+                            format!("Rgb::{what} of a 3x1 ({t:?}, {p:?}) image exposes {}x{} ({:?}, {:?})", img.width(), img.height(), img.transfer(), img.primaries()),
+                            J::obj().set("kind", "rgb-labels").set("transfer", format!("{t:?}")).set("primaries", format!("{p:?}")),
+                        );
+                    }
+                }
+            }
+        }
+        macro_rules! copies {
+            ($name:expr, $src:expr, $other:expr) => {{
+                n += 2;
+                let src = $src;
+                let mut dst = $other;
+                dst.clone_from(&src);
+                let cl = src.clone();
+                for (what, img) in [("clone_from", &dst), ("clone", &cl)] {
+                    if !same(img.data(), &a) || img.width() != 3 || img.height() != 1 {
+                        ev::violation(format!("C12|{}-not-verbatim|{what}", $name), format!("{}::{what} changed data or dimensions", $name), J::Null);
+                    }
+                }
+            }};
+        }
+        copies!("LinearRgb", LinearRgb::new(a.clone(), 3, 1).unwrap(), LinearRgb::new(vec![[0.0; 3]; 8], 2, 4).unwrap());
+        copies!("Xyb", Xyb::new(a.clone(), 3, 1).unwrap(), Xyb::new(vec![[0.0; 3]; 8], 2, 4).unwrap());
+        copies!("Hsl", Hsl::new(a.clone(), 3, 1).unwrap(), Hsl::new(vec![[0.0; 3]; 8], 2, 4).unwrap());
     }
     // Rgb::new keeps the labels it is given (only Unspecified is resolved: sRGB / BT.709)
     for t in ALL_TC.iter().copied().chain([TC::Unspecified]) {
